@@ -133,6 +133,26 @@ def build_tx(d, mutable=False):
     return TX(vin, vout, d["lock"], d["ver"], wit)
 
 
+def edit_in_place(r, d, tx):
+    """edits the very same mutable objects a transaction is made of (no object is replaced) and returns
+    the description of the new value"""
+    from bitcoin.core.script import CScript
+    d = dict(d, vin=[dict(i) for i in d["vin"]], vout=[dict(o) for o in d["vout"]])
+    for k, o in enumerate(d["vout"]):
+        o["value"] = (o["value"] + 1 + k) % (2 ** 62)
+        o["script"] = o["script"] + bytes([0x51 + k % 16])
+        tx.vout[k].nValue = o["value"]
+        tx.vout[k].scriptPubKey = CScript(o["script"])
+    for k, i in enumerate(d["vin"]):
+        i["seq"] = (i["seq"] + 1) & 0xffffffff
+        i["n"] = (i["n"] + 1) & 0xffffffff
+        i["hash"] = bytes([i["hash"][0] ^ 1]) + i["hash"][1:]
+        tx.vin[k].nSequence = i["seq"]
+        tx.vin[k].prevout.n = i["n"]
+        tx.vin[k].prevout.hash = i["hash"]
+    return d
+
+
 def build_header(d):
     from bitcoin.core import CBlockHeader
     return CBlockHeader(d["ver"], d["prev"], d["merkle"], d["time"], d["bits"], d["nonce"])
